@@ -365,6 +365,7 @@ fn run(batches: &str, root: &str, entries: u32, flagbits: u32, out: &mut Out) {
         assert!(reg.is_ok(), "io_uring_register_buffers failed");
     }
     let mut next_u: u64 = 1000;
+    let mut lost_in_a_row = 0;
     let mut graveyard: std::collections::VecDeque<Keep> = std::collections::VecDeque::new();
     let f = std::io::BufReader::new(std::fs::File::open(batches).unwrap());
     for line in f.lines() {
@@ -432,7 +433,9 @@ fn run(batches: &str, root: &str, entries: u32, flagbits: u32, out: &mut Out) {
         }
         // reap until every submission has completed (or 2 s passed), then look once more for extras
         let mut cqes = Vec::new();
-        let deadline = std::time::Instant::now() + std::time::Duration::from_millis(300);
+        // completions of operations the kernel hands to its worker threads can take long on a loaded machine;
+        // a ring that lost completions several batches in a row is not waited for any more
+        let deadline = std::time::Instant::now() + std::time::Duration::from_millis(if lost_in_a_row >= 2 { 30 } else { 2500 });
         let mut extra_round = false;
         loop {
             loop {
@@ -482,6 +485,7 @@ fn run(batches: &str, root: &str, entries: u32, flagbits: u32, out: &mut Out) {
             };
             payload_a.push(p);
         }
+        lost_in_a_row = if cqes.len() < n { lost_in_a_row + 1 } else { 0 };
         // results of world A in operation order (i64::MIN: no completion)
         let res_a: Vec<i64> = (0..n)
             .map(|k| cqes.iter().find(|c| c["u"] == subs[k]["u"]).and_then(|c| c["res"].as_i64()).unwrap_or(i64::MIN))
@@ -633,7 +637,7 @@ impl SockWorld {
 const SDATA: &[u8] = b"Ping!";
 
 /// one step through the wrapper: -> (completions, payload)
-fn sock_ring(ring: &mut IoUring, w: &mut SockWorld, step: &Value, u: u64) -> (Vec<Value>, Value, bool, i64, i64, Option<String>) {
+fn sock_ring(ring: &mut IoUring, w: &mut SockWorld, step: &Value, u: u64, lost_in_a_row: &mut u32) -> (Vec<Value>, Value, bool, i64, i64, Option<String>) {
     let kind = step[0].as_str().unwrap();
     let c = step[1].as_u64().unwrap_or(0) as usize;
     let n = step[2].as_u64().unwrap_or(0) as usize;
@@ -686,7 +690,7 @@ fn sock_ring(ring: &mut IoUring, w: &mut SockWorld, step: &Value, u: u64) -> (Ve
         0
     };
     let mut cqes = Vec::new();
-    let deadline = std::time::Instant::now() + std::time::Duration::from_millis(300);
+    let deadline = std::time::Instant::now() + std::time::Duration::from_millis(if *lost_in_a_row >= 2 { 30 } else { 2500 });
     let mut extra = false;
     loop {
         while let Ok(Some((cu, res))) = guarded(|| ring.get_next_cqe().map(|c| (c.0.user_data, c.0.res))) {
@@ -706,6 +710,7 @@ fn sock_ring(ring: &mut IoUring, w: &mut SockWorld, step: &Value, u: u64) -> (Ve
         let _ = io_uring_enter(ring.fd, 0, 0, IoUringEnterFlags::IORING_ENTER_GETEVENTS);
     }
     let res = cqes.iter().find(|c| c["u"] == u).and_then(|c| c["res"].as_i64()).unwrap_or(i64::MIN);
+    *lost_in_a_row = if cqes.is_empty() { *lost_in_a_row + 1 } else { 0 };
     let payload = match kind {
         "accept" if res >= 0 => {
             w.server_side[w.pending.pop_front().unwrap_or(0)] = res as i32;
@@ -805,6 +810,7 @@ fn run_sock(scripts: &str, root: &str, entries: u32, flagbits: u32, out: &mut Ou
     };
     out.ev(&json!({"ev":"ring","entries":entries,"flags":flagbits}));
     let mut u: u64 = 5000;
+    let mut lost: u32 = 0;
     let f = std::io::BufReader::new(std::fs::File::open(scripts).unwrap());
     for line in f.lines() {
         let line = line.unwrap();
@@ -817,7 +823,7 @@ fn run_sock(scripts: &str, root: &str, entries: u32, flagbits: u32, out: &mut Ou
         let mut b = SockWorld::new(root, "B", run);
         for (k, step) in sc["steps"].as_array().unwrap().iter().enumerate() {
             u += 1;
-            let (cqes, pa, got_slot, to_submit, enter, panicked) = sock_ring(&mut ring, &mut a, step, u);
+            let (cqes, pa, got_slot, to_submit, enter, panicked) = sock_ring(&mut ring, &mut a, step, u, &mut lost);
             let (rb, pb) = sock_direct(&mut b, step);
             let op = match step[0].as_str().unwrap() {
                 "send" | "sendfd" => "sendmsg",
